@@ -16,9 +16,49 @@ from ref import addr as A
 from .core import HarnessError
 
 
-def fmt_amount(sat):
-    """Bitcoin Core's ValueFromAmount: fixed 8 decimals."""
-    return "%d.%08d" % (sat // 100000000, sat % 100000000)
+def fmt_amount(sat, mode="fixed8"):
+    """Bitcoin Core's ValueFromAmount: fixed 8 decimals.  mode="trimmed": the same number
+    with trailing zeros removed ("1", "1.5"), as a re-encoding proxy might print it - still a
+    plain JSON number without exponent."""
+    s = "%d.%08d" % (sat // 100000000, sat % 100000000)
+    if mode == "trimmed":
+        s = s.rstrip("0").rstrip(".")
+    return s
+
+
+class VirtualTime:
+    """Replaces the clock functions of the real `time` module by a virtual clock for the
+    duration of a run (the remote node advances it by its response latency)."""
+
+    NAMES = ("time", "monotonic", "perf_counter", "sleep", "time_ns", "monotonic_ns")
+
+    def __init__(self, epoch=1700000000.0):
+        self.now = 0.0
+        self.epoch = epoch
+        self._saved = {}
+
+    def advance(self, d):
+        self.now += max(0.0, d)
+
+    def __enter__(self):
+        import time as _t
+
+        for n in self.NAMES:
+            self._saved[n] = getattr(_t, n)
+        _t.time = lambda: self.epoch + self.now
+        _t.monotonic = lambda: 1000.0 + self.now
+        _t.perf_counter = lambda: 1000.0 + self.now
+        _t.sleep = lambda d: self.advance(d)
+        _t.time_ns = lambda: int((self.epoch + self.now) * 1e9)
+        _t.monotonic_ns = lambda: int((1000.0 + self.now) * 1e9)
+        return self
+
+    def __exit__(self, *exc):
+        import time as _t
+
+        for n in self.NAMES:
+            setattr(_t, n, self._saved[n])
+        return False
 
 
 class Response(io.BytesIO):
@@ -60,12 +100,19 @@ class SimNode:
         self.last_reported = None
         self.reports = {}  # scriptPubKey -> keys reported by the most recent scan for it
         self.order_mode = "insertion"  # or "shuffled" / "reversed"
+        self.amount_format = "fixed8"
+        self.vtime = None  # VirtualTime, advanced by every response
+        self.latency = 0.05
         self.height = 200
 
     # the urlopen seam ---------------------------------------------------
     def urlopen(self, req, *a, **k):
         url = req.full_url if hasattr(req, "full_url") else str(req)
         fault = self.fault_plan.pop(0) if self.fault_plan else None
+        if self.vtime is not None:
+            self.vtime.advance(self.latency)
+            if self.latency > 5:
+                self.faults.hit("slow-node")
         self.log.add(len(self.requests), "rpc", "request", (url, fault or ""))
         if fault == "refused":
             self.faults.hit("rpc-connection-refused")
@@ -129,14 +176,14 @@ class SimNode:
             total += u["sat"]
             unspents.append(
                 '{"txid":"%s","vout":%d,"scriptPubKey":"%s","desc":"%s","amount":%s,"coinbase":false,"height":%d}'
-                % (txid, vout, u["spk"].hex(), desc.replace('"', ""), fmt_amount(u["sat"]), u["height"])
+                % (txid, vout, u["spk"].hex(), desc.replace('"', ""), fmt_amount(u["sat"], self.amount_format), u["height"])
             )
         text = '{"success":true,"txouts":%d,"height":%d,"bestblock":"%064x","unspents":[%s],"total_amount":%s}' % (
             len(self.ledger.utxos),
             self.height,
             self.height,
             ",".join(unspents),
-            fmt_amount(total),
+            fmt_amount(total, self.amount_format),
         )
         return self._ok(rid, text)
 
